@@ -589,6 +589,11 @@ class Exec:
     def external(self, e, cq, cn, ob, av, st, fr):
         vals = [self.argval(a, st) for a in av]
         if cq in ('std::move', 'std::forward') and vals: yield vals[0], st; return
+        if cq == 'std::tie': yield ('tuple',) + tuple(vals), st; return
+        if cq == 'std::get' and vals and isinstance(vals[0], tuple) and vals[0] and vals[0][0] == 'tuple':
+            idx = [ta.get('v') for ta in e.get('cta', []) if ta.get('k') == 'int']
+            if idx and isinstance(idx[0], int) and 0 <= idx[0] < len(vals[0]) - 1:
+                yield vals[0][1 + idx[0]], st; return
         if cq in ('std::min', 'std::max') and len(vals) == 2:
             a, b = vals
             if isinstance(a, int) and isinstance(b, int): yield (min(a, b) if cq == 'std::min' else max(a, b)), st; return
